@@ -44,6 +44,9 @@ def check(ctx):
                 ke, loops = kc[0]
                 ls = s.loops[loops[0]['loop']]
                 w = '%s:%s' % (ke['where'], base)
+                if ls.lo is None or ls.hi is None:
+                    raise AnalysisBroken('%s: the iteration loop is not a counting loop this analysis '
+                                         'recognises' % w)
                 args = ke['args']
                 # generator: the local `generator`, initialised from chkpt.generator(), advanced only
                 # by the kernel (and discard() in the MPI drivers)
@@ -71,8 +74,8 @@ def check(ctx):
                                    'live': T.pretty(gu['next'])[:200] if gu else None})
                 # number of calls
                 calls = args[1]
-                allowed_calls = {sel(sym('iteration_calls'), ls.idx), sym('size()'), sym('rank()')}
-                bad = [a for a in atoms_of(calls) if a not in allowed_calls and a != sym('iteration_calls') and a != ls.idx]
+                allowed_calls = {sel(calls_list_term(d), ls.idx), sym('size()'), sym('rank()')}
+                bad = [a for a in atoms_of(calls) if a not in allowed_calls and a != calls_list_term(d) and a != ls.idx]
                 if bad:
                     ctx.violation('R1.calls_from_list', w, 'the number of calls of an iteration depends on '
                                   'more than iteration_calls[k] (and the MPI rank/size)',
